@@ -338,6 +338,11 @@ def build_cases(tier="quick"):
     from contracts import c11
 
     ref = [Case(f"{PROP}/solve.dump#named-assertions", c.case, c.harness, replay=c.replay, sources=c.sources) for c in c11.dump_cases()]
+    # with caching on the query ends with (get-unsat-core), which fails after `sat` (z3 exits 1): the answer is still `sat` (C05's unit)
+    from contracts import c05
+    from contracts.common import rewrap
+
+    ref += rewrap(PROP, c05.from_result_cases(), "same-classification-with-and-without-cache")
     return pin_cases() + check_unsat_cores_cases() + parse_core_cases() + from_result_cases() + recording_cases() + end_to_end_cases() + ref
 
 
